@@ -112,6 +112,8 @@ def check_simplifier(func, xs, ys, cfg, full_lists):
     if st != 'ok':
         return None, []    # termination / exceptions of simplifiers are C01's clause, not C07's
     reduced, removed = v
+    _LAST[0] = None
+    reduced0 = reduced
     reduced = np.asarray(reduced)
     S = [int(a) for a in reduced.tolist()]
     out = []
@@ -122,6 +124,7 @@ def check_simplifier(func, xs, ys, cfg, full_lists):
         out.append(Failure('rdp.compute_removed_points', 'non-termination' if st2 == 'hang' else lib.exc_kind(tab), key, case, repr(tab), (n, 0)))
         return S, out
     a, b = np.asarray(tab, dtype=float), np.asarray(removed, dtype=float)
+    _LAST[0] = {'spec': {'func': func, 'x': list(xs), 'y': list(ys), 'cfg': cfg}, 'reduced': reduced0, 'removed': removed, 'S': list(S), 'rows': b.tolist(), 'n': n}
     if a.shape != b.shape or not np.array_equal(a, b):
         out.append(Failure('rdp.compute_removed_points', 'differs-from-%s-table' % func, key, case,
                            'compute_removed_points=%s simplifier=%s' % (a.tolist(), b.tolist()), (n, 0)))
@@ -141,6 +144,37 @@ def check_simplifier(func, xs, ys, cfg, full_lists):
                                'I=%s expected %s observed %s' % (I, exp, got), (n, len(I))))
             break
     return S, out
+
+
+_LAST = [None]   # the (reduced, removed) pair returned by the latest simplifier call, still held by the "caller"
+
+
+def verify_held(h, second):
+    """Depth-2 operation sequence: a reduction obtained EARLIER and still held must map back exactly after a LATER simplifier call
+    (returned tables must not share storage with later results)."""
+    n, S = h['n'], h['S']
+    case = {'oracle': 'held', 'first': h['spec'], 'second': second}
+    key = 'held %s %s %s then %s %s %s' % (h['spec']['func'], lib.pts_key(h['spec']['x'], h['spec']['y']), lib.cfg_key(h['spec']['cfg']),
+                                          second['func'], lib.pts_key(second['x'], second['y']), lib.cfg_key(second['cfg']))
+    I = list(range(len(S)))
+    st, m, _ = lib.guarded(4 * n + 8 + 4 * len(I), rdp.mapping, np.array(I, dtype=int), h['reduced'], h['removed'])
+    got = np.asarray(m).tolist() if st == 'ok' else repr(m)
+    rows = np.asarray(h['removed'], dtype=float).tolist()
+    if got != S or rows != h['rows']:
+        return [Failure('rdp.mapping', 'earlier-reduction-changed-by-a-later-call', key, case,
+                        'held reduced=%s: mapping gives %s; table was %s and is now %s' % (S, got, h['rows'], rows), (n, len(S)))]
+    return []
+
+
+def replay_held(case):
+    a, b = case['first'], case['second']
+    _LAST[0] = None
+    check_simplifier(a['func'], a['x'], a['y'], a['cfg'], False)
+    h = _LAST[0]
+    if h is None:
+        return []
+    check_simplifier(b['func'], b['x'], b['y'], b['cfg'], False)
+    return verify_held(h, b)
 
 
 def sim_configs(n):
@@ -219,7 +253,13 @@ def run_unit(unit, res):
         cfgs = sim_configs(n)
         for i, xs, ys in P.shard(n, k, K):
             for func, cfg in cfgs:
+                held = _LAST[0]
                 S, fs = check_simplifier(func, xs, ys, cfg, full_lists=(n <= 5))
+                if held is not None:
+                    hf = verify_held(held, {'func': func, 'x': list(xs), 'y': list(ys), 'cfg': cfg})
+                    res.count('held_pairs_rechecked')
+                    res.count('transitions', len(held['S']))
+                    fs = fs + hf
                 for f in fs:
                     res.fail(f)
                 res.count('evaluations')
@@ -243,6 +283,8 @@ def replay(case):
         return check_mapping(case['n'], case['reduced'], case['removed'], case['indexes'], case['sorted'], case['dtype'])
     if o == 'removed_table':
         return check_removed_table(case['n'], case['reduced'])
+    if o == 'held':
+        return replay_held(case)
     if o == 'simplifier':
         _, fs = check_simplifier(case['func'], case['x'], case['y'], case['cfg'], case.get('full_lists', True))
         return fs
